@@ -10,7 +10,6 @@ denotation of Spec/AuxFile.lean.
 6. lines that are no command are ignored (document-level).
 -/
 import PybtexModel.Spec.AuxFile
-import PybtexModel.Lemmas.Basic
 
 namespace Pybtex.Aux
 open Spec
